@@ -275,7 +275,7 @@ def build(tier, mutate=None):
     elif tier == "quick":
         shapes, out_max, corr = [(1, 2), (1, 3), (2, 2), (2, 3)], 5 * 1024 + 1, [(2, 2)]
     else:
-        shapes, out_max, corr = [(1, 2), (1, 3), (1, 4), (2, 2), (2, 3), (2, 4), (3, 2), (3, 3), (3, 4), (4, 2), (4, 3)], 8 * 1024 + 1, [(2, 2), (3, 2), (3, 3)]
+        shapes, out_max, corr = [(1, 2), (1, 3), (1, 4), (2, 2), (2, 3), (2, 4), (3, 2), (3, 3), (4, 2)], 8 * 1024 + 1, [(2, 2), (3, 2), (3, 3)]
     for F, R in shapes:
         add("inbound/F=%d,R=%d" % (F, R), inbound, F, R, None, split=True,
             bounds={"frames": F, "reads": R, "plaintext_len": "0..1024 each (symbolic)", "cuts": "all positions (symbolic)"},
